@@ -45,10 +45,11 @@ class ExtUserData:
         try:
             j = json.loads(value)
         except json.decoder.JSONDecodeError:
-            # This should have been valid JSON but if it isn't
-            # then hexdump it.
-            mv = memoryview(value.encode('utf-8'))
-            j = json.loads(json.dumps(hexdump(mv)))
+            # This should have been valid JSON but it isn't (e.g. a parser
+            # returned an empty string): keep the section's own bytes.
+            j = OrderedDict()
+            j["Error"] = "Parser did not return valid JSON"
+            j["Data"] = hexdump(memoryview(self.data)) if self.data else []
 
         if not isinstance(j, dict):
             out['Data'] = j
